@@ -207,6 +207,8 @@ def cases(tier, seed):
             n += 1
             if made_thr % 20 == 10:
                 yield _gen_shared_prefix_case(n, rng)
+            elif made_thr % 20 == 15:
+                yield _gen_passthrough_case(n, rng)
             else:
                 yield _gen_thread_case(n, rng, real=(made_thr % 20 == 0))
 
@@ -323,6 +325,32 @@ def _gen_shared_prefix_case(n, rng):
     return {"id": n, "fam": "thr", "reqs": reqs, "real": True, "alone": True}
 
 
+def _gen_passthrough_case(n, rng):
+    """Unmodified LLMRails in passthrough mode (the server as a guarded proxy): the message list of the turn IS the LLM's
+    input, so "the messages used for a turn are exactly the stored thread followed by the new messages" is observable at the
+    LLM call. Clients that resend their system prompt with every request, system messages in the middle of a list, repeated
+    user texts; 1-2 threads interleaved."""
+    pool = _thread_pool(rng)[: rng.choice([1, 2])]
+    sys_texts = ["SYS-%d be brief" % n, "SYS-%d answer in German" % n]
+    reqs = []
+    for i in range(rng.randint(3, 7)):
+        tid = None if rng.random() < 0.1 else rng.choice(pool)
+        msgs = []
+        x = rng.random()
+        if x < 0.5:
+            msgs.append({"role": "system", "content": sys_texts[0]})  # the client's fixed system prompt, resent with every request
+        elif x < 0.7:
+            msgs.append({"role": "system", "content": rng.choice(sys_texts)})
+        if rng.random() < 0.3:
+            msgs.append({"role": "user", "content": rng.choice(SHARED_TEXTS)})
+            msgs.append({"role": "assistant", "content": "EARLIER-%d-%d" % (n, i)})
+            if rng.random() < 0.5:
+                msgs.append({"role": "system", "content": rng.choice(sys_texts + ["SYS-%d-%d new rule" % (n, i)])})
+        msgs.append({"role": "user", "content": rng.choice(SHARED_TEXTS + ["Q-%d-%d" % (n, i)])})
+        reqs.append({"cfg": {"config_id": "cfg_pt"}, "thread_id": tid, "messages": msgs, "context": None, "shape": "dict"})
+    return {"id": n, "fam": "thr", "reqs": reqs, "real": True, "pt": True}
+
+
 # ----------------------------------------------------------------------------------------------
 # worker side
 # ----------------------------------------------------------------------------------------------
@@ -385,7 +413,14 @@ def setup_worker():
     with open(os.path.join(root, "cfg_ms", "flows.co"), "w") as f:
         f.write('define user ask something\n  "hi"\n  "hello there"\n\ndefine user ask other\n  "tell me more"\n  "and then?"\n  "thanks"\n')
 
-    rec = {"paths": [], "get_rails": [], "gen": [], "built": [], "ctl": {}}
+    # passthrough: the LLM is called with the message list of the turn itself
+    os.makedirs(os.path.join(root, "cfg_pt"))
+    with open(os.path.join(root, "cfg_pt", "config.yml"), "w") as f:
+        f.write("models:\n  - type: main\n    engine: c20fake\n    model: x\n  - type: embeddings\n    engine: c20emb\n    model: m\n"
+                "passthrough: True\n"
+                'instructions:\n  - type: general\n    content: "%s"\n' % _mark("cfg_r"))
+
+    rec = {"paths": [], "get_rails": [], "gen": [], "built": [], "ctl": {}, "llm": []}
     real_rc = api.RailsConfig
     real_from_path = real_rc.from_path
 
@@ -496,9 +531,11 @@ def _make_real_rails(rec):
             return "c20fake"
 
         def _call(self, prompt, stop=None, run_manager=None, **kw):
+            rec["llm"].append(prompt)
             return _c20_answer(prompt)
 
         async def _acall(self, prompt, stop=None, run_manager=None, **kw):
+            rec["llm"].append(prompt)
             return _c20_answer(prompt)
 
     class C20Emb(EmbeddingModel):
@@ -616,7 +653,7 @@ def _effective_ids(frag):
 def _post(body):
     """-> dict(status, json, exc) ; never raises for server-side failures."""
     rec = W["rec"]
-    rec["paths"], rec["get_rails"], rec["gen"], rec["built"] = [], [], [], []
+    rec["paths"], rec["get_rails"], rec["gen"], rec["built"], rec["llm"] = [], [], [], [], []
     W["counter"] += 1
     out = {"status": None, "json": None, "exc": None, "exc_msg": None}
     try:
@@ -635,6 +672,7 @@ def _post(body):
     out["get_rails"] = rec["get_rails"]
     out["gen"] = rec["gen"]
     out["built"] = rec["built"]
+    out["llm"] = rec["llm"]
     return out
 
 
@@ -958,7 +996,7 @@ def _run_thread_case(case):
             obs["validation_422"] += 1
             continue
         if kind == "fixed":
-            if all(x in GOOD or x in ("cfg_r", "cfg_ms") for x in ids):
+            if all(x in GOOD or x in ("cfg_r", "cfg_ms", "cfg_pt") for x in ids):
                 return viol("thread-request-fixed", i, req, reply=kind, why="a real config was refused")
             obs["hostile_in_thread_sequence"] += 1
             if out["gen"]:
@@ -994,6 +1032,19 @@ def _run_thread_case(case):
         if kind != "success":
             return viol("thread-request-" + kind, i, req, reply=kind, body=out["json"])
         obs["success_replies"] += 1
+        if case.get("pt"):
+            # passthrough: what the LLM was called with is the message list of the turn, message by message and in order
+            from langchain_core.messages import AIMessage, HumanMessage, SystemMessage, get_buffer_string
+
+            cls = {"user": HumanMessage, "assistant": AIMessage, "system": SystemMessage}
+            want = get_buffer_string([cls[m_["role"]](content=m_["content"]) for m_ in seen_expected])
+            obs["passthrough_turns"] = obs.get("passthrough_turns", 0) + 1
+            if len(seen_expected) > len(req["messages"]):
+                obs["passthrough_turns_with_stored_history"] = obs.get("passthrough_turns_with_stored_history", 0) + 1
+            if any(m_["role"] == "system" for m_ in seen_expected[1:]):
+                obs["passthrough_turns_with_a_system_message_not_in_front"] = obs.get("passthrough_turns_with_a_system_message_not_in_front", 0) + 1
+            if out["llm"] != [want]:
+                return viol("llm-input-is-not-the-thread-plus-new-messages", i, req, expected_llm_input=want, llm_inputs=out["llm"][:3])
         model = model_after
         expected_store = {"thread-" + t: m for t, m in model.items()}
         obs["thread_store_checks"] += 1
